@@ -114,6 +114,42 @@ pub(crate) mod k {
             self.env.step(K_FLUSH)?;
             Ok(())
         }
+        // Without short writes the sink accepts a whole buffer in one call; overriding the
+        // provided method keeps symbolic-length writes to ONE copy loop (the default
+        // write_all loop around write() squares the unwinding cost). With short writes the
+        // standard retry loop semantics are reproduced call by call.
+        fn write_all(&mut self, mut data: &[u8]) -> io::Result<()> {
+            if !self.env.short {
+                if data.is_empty() {
+                    return Ok(());
+                }
+                self.env.step(K_WRITE)?;
+                let n = data.len();
+                let mut i = 0;
+                while i < n {
+                    let idx = self.off + i;
+                    if idx < CAP {
+                        self.buf[idx] = data[i];
+                    } else {
+                        self.overflow = true;
+                    }
+                    i += 1;
+                }
+                self.off += n;
+                if self.off > self.end {
+                    self.end = self.off;
+                }
+                return Ok(());
+            }
+            while !data.is_empty() {
+                match self.write(data) {
+                    Ok(0) => return Err(io::Error::from(io::ErrorKind::WriteZero)),
+                    Ok(n) => data = &data[n..],
+                    Err(e) => return Err(e),
+                }
+            }
+            Ok(())
+        }
     }
     impl<const CAP: usize> Read for Sink<CAP> {
         fn read(&mut self, out: &mut [u8]) -> io::Result<usize> {
@@ -132,6 +168,37 @@ pub(crate) mod k {
             self.off += n;
             Ok(n)
         }
+        fn read_exact(&mut self, out: &mut [u8]) -> io::Result<()> {
+            if !self.env.short {
+                if out.is_empty() {
+                    return Ok(());
+                }
+                self.env.step(K_READ)?;
+                let avail = if self.off < self.end { self.end - self.off } else { 0 };
+                let want = out.len();
+                let n = if want < avail { want } else { avail };
+                let mut i = 0;
+                while i < n {
+                    let idx = self.off + i;
+                    out[i] = if idx < CAP { self.buf[idx] } else { 0 };
+                    i += 1;
+                }
+                self.off += n;
+                if n < want {
+                    return Err(io::Error::from(io::ErrorKind::UnexpectedEof));
+                }
+                return Ok(());
+            }
+            let mut done = 0;
+            while done < out.len() {
+                match self.read(&mut out[done..]) {
+                    Ok(0) => return Err(io::Error::from(io::ErrorKind::UnexpectedEof)),
+                    Ok(n) => done += n,
+                    Err(e) => return Err(e),
+                }
+            }
+            Ok(())
+        }
     }
     impl<const CAP: usize> Seek for Sink<CAP> {
         fn seek(&mut self, to: SeekFrom) -> io::Result<u64> {
@@ -146,6 +213,43 @@ pub(crate) mod k {
             }
             self.off = np as usize;
             Ok(self.base + self.off as u64)
+        }
+    }
+
+    /// Handle to a `Sink` that lives in the harness frame. `ZipWriter` keeps its sink inside a
+    /// nested enum; embedding a byte array there defeats CBMC's field sensitivity (every byte
+    /// written rewrites the whole enum object). The handle keeps only a pointer inside the
+    /// writer, all mutable sink state stays in a plain struct outside.
+    pub struct SinkH<const CAP: usize> {
+        pub p: *mut Sink<CAP>,
+    }
+    impl<const CAP: usize> Sink<CAP> {
+        pub fn handle(&mut self) -> SinkH<CAP> {
+            SinkH { p: self as *mut Sink<CAP> }
+        }
+    }
+    impl<const CAP: usize> Write for SinkH<CAP> {
+        fn write(&mut self, data: &[u8]) -> io::Result<usize> {
+            unsafe { (*self.p).write(data) }
+        }
+        fn flush(&mut self) -> io::Result<()> {
+            unsafe { (*self.p).flush() }
+        }
+        fn write_all(&mut self, data: &[u8]) -> io::Result<()> {
+            unsafe { (*self.p).write_all(data) }
+        }
+    }
+    impl<const CAP: usize> Read for SinkH<CAP> {
+        fn read(&mut self, out: &mut [u8]) -> io::Result<usize> {
+            unsafe { (*self.p).read(out) }
+        }
+        fn read_exact(&mut self, out: &mut [u8]) -> io::Result<()> {
+            unsafe { (*self.p).read_exact(out) }
+        }
+    }
+    impl<const CAP: usize> Seek for SinkH<CAP> {
+        fn seek(&mut self, to: SeekFrom) -> io::Result<u64> {
+            unsafe { (*self.p).seek(to) }
         }
     }
 
@@ -183,6 +287,37 @@ pub(crate) mod k {
             }
             self.pos += n;
             Ok(n)
+        }
+        fn read_exact(&mut self, out: &mut [u8]) -> io::Result<()> {
+            if !self.env.short {
+                if out.is_empty() {
+                    return Ok(());
+                }
+                self.env.step(K_READ)?;
+                let avail = if self.pos < self.len { self.len - self.pos } else { 0 };
+                let want = out.len();
+                let n = if want < avail { want } else { avail };
+                let mut i = 0;
+                while i < n {
+                    let idx = self.pos + i;
+                    out[i] = if idx < N { self.buf[idx] } else { 0 };
+                    i += 1;
+                }
+                self.pos += n;
+                if n < want {
+                    return Err(io::Error::from(io::ErrorKind::UnexpectedEof));
+                }
+                return Ok(());
+            }
+            let mut done = 0;
+            while done < out.len() {
+                match self.read(&mut out[done..]) {
+                    Ok(0) => return Err(io::Error::from(io::ErrorKind::UnexpectedEof)),
+                    Ok(n) => done += n,
+                    Err(e) => return Err(e),
+                }
+            }
+            Ok(())
         }
     }
     impl<const N: usize> Seek for Src<N> {
@@ -263,14 +398,14 @@ pub(crate) mod k {
     // Reference models (independent of the crate's code)
     // ------------------------------------------------------------------------------------
     /// bitwise reflected CRC-32 step (ISO 3309 / poly 0xEDB88320), no table
-    pub fn ref_crc32_step(mut crc: u32, b: u8) -> u32 {
-        crc ^= b as u32;
-        let mut k = 0;
-        while k < 8 {
-            crc = if crc & 1 != 0 { (crc >> 1) ^ 0xEDB8_8320 } else { crc >> 1 };
-            k += 1;
-        }
-        crc
+    #[inline]
+    fn crc_bit(crc: u32) -> u32 {
+        if crc & 1 != 0 { (crc >> 1) ^ 0xEDB8_8320 } else { crc >> 1 }
+    }
+    pub fn ref_crc32_step(crc: u32, b: u8) -> u32 {
+        // eight shift/xor rounds written out (no loop, so no unwinding bound is consumed)
+        let c = crc ^ b as u32;
+        crc_bit(crc_bit(crc_bit(crc_bit(crc_bit(crc_bit(crc_bit(crc_bit(c))))))))
     }
     pub fn ref_crc32(data: &[u8], n: usize) -> u32 {
         let mut crc = 0xFFFF_FFFFu32;
@@ -346,3 +481,197 @@ pub(crate) mod k {
 }
 #[allow(unused_imports)]
 pub(crate) use k::*;
+
+// ---------------------------------------------------------------------------------------------
+// Builders for crate-internal state with symbolic scalar fields
+// ---------------------------------------------------------------------------------------------
+#[allow(dead_code, unused_imports, deprecated)]
+pub(crate) mod b {
+    use crate::compression::CompressionMethod;
+    use crate::types::{AtomicU64, DateTime, System, ZipFileData};
+
+    pub fn any_system() -> System {
+        let s: u8 = kani::any();
+        match s % 3 {
+            0 => System::Dos,
+            1 => System::Unix,
+            _ => System::Unknown,
+        }
+    }
+    /// A ZipFileData whose scalar fields are all symbolic; name/extra are given (fixed length).
+    pub fn any_zfd(name: String, extra: Vec<u8>) -> ZipFileData {
+        ZipFileData {
+            system: any_system(),
+            version_made_by: kani::any(),
+            encrypted: kani::any(),
+            using_data_descriptor: kani::any(),
+            compression_method: CompressionMethod::from_u16(kani::any()),
+            compression_level: None,
+            last_modified_time: DateTime::from_msdos(kani::any(), kani::any()),
+            crc32: kani::any(),
+            compressed_size: kani::any(),
+            uncompressed_size: kani::any(),
+            file_name: name,
+            file_name_raw: Vec::new(),
+            extra_field: extra,
+            file_comment: String::new(),
+            header_start: kani::any(),
+            central_header_start: 0,
+            data_start: AtomicU64::new(0),
+            external_attributes: kani::any(),
+            large_file: kani::any(),
+            aes_mode: None,
+        }
+    }
+    /// one symbolic ASCII byte as a String (length is concrete: 1)
+    pub fn ascii1() -> String {
+        let c: u8 = kani::any();
+        kani::assume(c < 0x80);
+        let v: Vec<u8> = vec![c];
+        unsafe { String::from_utf8_unchecked(v) }
+    }
+    /// a 2-byte name (length concrete): either two ASCII bytes or one 2-byte UTF-8 scalar
+    pub fn name2() -> String {
+        let a: u8 = kani::any();
+        let b: u8 = kani::any();
+        let ascii_pair = a < 0x80 && b < 0x80;
+        let scalar = a >= 0xC2 && a <= 0xDF && b >= 0x80 && b <= 0xBF;
+        kani::assume(ascii_pair || scalar);
+        let v: Vec<u8> = vec![a, b];
+        unsafe { String::from_utf8_unchecked(v) }
+    }
+}
+#[allow(unused_imports)]
+pub(crate) use b::*;
+
+// Generated at check time by the driver from CPython's cp437 codec: REF_CP437: [u32; 256]
+include!(concat!(env!("ZIP_VERIF_GEN_DIR"), "/cp437_table.rs"));
+
+
+// ---------------------------------------------------------------------------------------------
+// ref_build: an independent byte-level producer of ZIP records (APPNOTE 6.3.9 layouts).
+// Layout (lengths) is concrete at every call site; values may be symbolic.
+// ---------------------------------------------------------------------------------------------
+#[allow(dead_code)]
+pub(crate) mod r {
+    use super::k::*;
+
+    #[derive(Clone, Copy)]
+    pub struct EntryVals {
+        pub made_by: u16,
+        pub needed: u16,
+        pub flags: u16,
+        pub method: u16,
+        pub time: u16,
+        pub date: u16,
+        pub crc: u32,
+        pub csize: u32,
+        pub usize_: u32,
+        pub disk: u16,
+        pub iattr: u16,
+        pub eattr: u32,
+        pub offset: u32,
+    }
+    impl EntryVals {
+        pub fn any() -> EntryVals {
+            EntryVals {
+                made_by: kani::any(),
+                needed: kani::any(),
+                flags: kani::any(),
+                method: kani::any(),
+                time: kani::any(),
+                date: kani::any(),
+                crc: kani::any(),
+                csize: kani::any(),
+                usize_: kani::any(),
+                disk: kani::any(),
+                iattr: kani::any(),
+                eattr: kani::any(),
+                offset: kani::any(),
+            }
+        }
+    }
+    fn put_bytes(b: &mut [u8], at: usize, src: &[u8]) -> usize {
+        let mut i = 0;
+        while i < src.len() {
+            b[at + i] = src[i];
+            i += 1;
+        }
+        at + src.len()
+    }
+    /// local file header; sizes/crc given explicitly (they may legitimately differ from the
+    /// central record, e.g. zero under bit 3)
+    #[allow(clippy::too_many_arguments)]
+    pub fn put_local(b: &mut [u8], at: usize, v: &EntryVals, crc: u32, csize: u32, usize_: u32, name: &[u8], extra: &[u8]) -> usize {
+        put32(b, at, SIG_LOCAL);
+        put16(b, at + 4, v.needed);
+        put16(b, at + 6, v.flags);
+        put16(b, at + 8, v.method);
+        put16(b, at + 10, v.time);
+        put16(b, at + 12, v.date);
+        put32(b, at + 14, crc);
+        put32(b, at + 18, csize);
+        put32(b, at + 22, usize_);
+        put16(b, at + 26, name.len() as u16);
+        put16(b, at + 28, extra.len() as u16);
+        let p = put_bytes(b, at + 30, name);
+        put_bytes(b, p, extra)
+    }
+    pub fn put_central(b: &mut [u8], at: usize, v: &EntryVals, name: &[u8], extra: &[u8], comment: &[u8]) -> usize {
+        put32(b, at, SIG_CENTRAL);
+        put16(b, at + 4, v.made_by);
+        put16(b, at + 6, v.needed);
+        put16(b, at + 8, v.flags);
+        put16(b, at + 10, v.method);
+        put16(b, at + 12, v.time);
+        put16(b, at + 14, v.date);
+        put32(b, at + 16, v.crc);
+        put32(b, at + 20, v.csize);
+        put32(b, at + 24, v.usize_);
+        put16(b, at + 28, name.len() as u16);
+        put16(b, at + 30, extra.len() as u16);
+        put16(b, at + 32, comment.len() as u16);
+        put16(b, at + 34, v.disk);
+        put16(b, at + 36, v.iattr);
+        put32(b, at + 38, v.eattr);
+        put32(b, at + 42, v.offset);
+        let p = put_bytes(b, at + 46, name);
+        let p = put_bytes(b, p, extra);
+        put_bytes(b, p, comment)
+    }
+    #[allow(clippy::too_many_arguments)]
+    pub fn put_eocd(b: &mut [u8], at: usize, disk: u16, cd_disk: u16, n_here: u16, n_total: u16, cd_size: u32, cd_off: u32, comment: &[u8]) -> usize {
+        put32(b, at, SIG_EOCD);
+        put16(b, at + 4, disk);
+        put16(b, at + 6, cd_disk);
+        put16(b, at + 8, n_here);
+        put16(b, at + 10, n_total);
+        put32(b, at + 12, cd_size);
+        put32(b, at + 16, cd_off);
+        put16(b, at + 20, comment.len() as u16);
+        put_bytes(b, at + 22, comment)
+    }
+    #[allow(clippy::too_many_arguments)]
+    pub fn put_eocd64(b: &mut [u8], at: usize, made_by: u16, needed: u16, disk: u32, cd_disk: u32, n_here: u64, n_total: u64, cd_size: u64, cd_off: u64) -> usize {
+        put32(b, at, SIG_EOCD64);
+        put64(b, at + 4, 44);
+        put16(b, at + 12, made_by);
+        put16(b, at + 14, needed);
+        put32(b, at + 16, disk);
+        put32(b, at + 20, cd_disk);
+        put64(b, at + 24, n_here);
+        put64(b, at + 32, n_total);
+        put64(b, at + 40, cd_size);
+        put64(b, at + 48, cd_off);
+        at + 56
+    }
+    pub fn put_loc64(b: &mut [u8], at: usize, disk: u32, eocd64_off: u64, ndisks: u32) -> usize {
+        put32(b, at, SIG_LOC64);
+        put32(b, at + 4, disk);
+        put64(b, at + 8, eocd64_off);
+        put32(b, at + 16, ndisks);
+        at + 20
+    }
+}
+#[allow(unused_imports)]
+pub(crate) use r::*;
